@@ -24,7 +24,7 @@ Print Assumptions T09_chunks_terminate.
 Theorem T09_emit_within_window :
   forall (dstate estate : Type) dec enc dresize eresize (evs : list event) (d1 : dstate) (e1 : estate) d2 e2 x,
     hist_wf evs ->
-    windows_respected x (snd (run dec enc dresize eresize (pair0 dstate estate d1 e1 d2 e2) evs)) = true.
+    windows_respected x (snd (H2Relay.run dec enc dresize eresize (pair0 dstate estate d1 e1 d2 e2) evs)) = true.
 Proof. exact (fun ds es dec enc dr er => emit_within_window ds es dec enc dr er ob_emit_gate ob_emit_debits ob_settings_delta_not_on_connection). Qed.
 Print Assumptions T09_emit_within_window.
 
@@ -32,9 +32,9 @@ Print Assumptions T09_emit_within_window.
    receiver's ledger, for every stream and for the connection (T09_conn_credit is the first conjunct). *)
 Theorem T09_window_is_ledger :
   forall (dstate estate : Type) dec enc dresize eresize (evs : list event) (d1 : dstate) (e1 : estate) d2 e2 x,
-    hist_wf evs -> all_ok (snd (run dec enc dresize eresize (pair0 dstate estate d1 e1 d2 e2) evs)) ->
-    let p := fst (run dec enc dresize eresize (pair0 dstate estate d1 e1 d2 e2) evs) in
-    let l := final_wled x (snd (run dec enc dresize eresize (pair0 dstate estate d1 e1 d2 e2) evs)) in
+    hist_wf evs -> all_ok (snd (H2Relay.run dec enc dresize eresize (pair0 dstate estate d1 e1 d2 e2) evs)) ->
+    let p := fst (H2Relay.run dec enc dresize eresize (pair0 dstate estate d1 e1 d2 e2) evs) in
+    let l := final_wled x (snd (H2Relay.run dec enc dresize eresize (pair0 dstate estate d1 e1 d2 e2) evs)) in
     f_conn (r_flow (toward x p)) = l_conn l /\
     forall s, s <> 0 -> win_of (r_flow (toward x p)) s = led_window l s.
 Proof. exact (fun ds es dec enc dr er => window_is_ledger ds es dec enc dr er ob_emit_gate ob_emit_debits ob_settings_delta_not_on_connection). Qed.
